@@ -272,7 +272,7 @@ def run(ck, tier):
     paths = build("asan")
     sc = getattr(ck, "scale", 1.0)
     if tier == "quick":
-        plan = [("huge", 2), ("odd_letters", 10), ("late_gaps", 6), ("near_end", 12), ("outlier", 3), ("bulk", 60), ("boundary_len", 17), ("boundary_n", 6), ("empties", 8), ("ratio", 2), ("many", 1), ("long", 1)]
+        plan = [("huge", 2), ("odd_letters", 10), ("late_gaps", 6), ("near_end", 12), ("outlier", 3), ("bulk", 100), ("boundary_len", 17), ("boundary_n", 6), ("empties", 8), ("ratio", 2), ("many", 1), ("long", 1)]
         big = build("rel")
     else:
         plan = [("huge", 12), ("odd_letters", 150), ("late_gaps", 80), ("near_end", 200), ("outlier", 40), ("bulk", 1200), ("boundary_len", 170), ("boundary_n", 60), ("empties", 120), ("ratio", 20), ("many", 12), ("long", 12)]
